@@ -144,9 +144,14 @@ def run():
     short = [(i, s) for i, s in enumerate(strings) if len(s) <= n_ex and "\x00" not in s]
     short_src = ["from t | select {v = %s}" % ('"' + sp.esc_for('"', s, ck.rng, 1) + '"') for _, s in short]
     prqlc_text = {}            # (dialect, index of string) -> literal text
+    FULL_DEPTH = ("sqlite", "mysql", "bigquery", "snowflake")      # one dialect of each emission / statement shape gets the longest strings too
     for d in ALL_DIALECTS:
         pre, suf = "SELECT ", (' AS "v" FROM "t"' if d == "snowflake" else " AS v FROM t")
-        for (i, s), src, a in zip(short, short_src, harness("compile", [{"src": src, "target": "sql." + d} for src in short_src])):
+        # thorough tier: the length-4 layer (11^4 strings) is compiled for FULL_DEPTH only (the other dialects share their emission
+        # with one of those; every dialect still tokenises every string); keeps the tier within its time budget
+        pick = [k_ for k_, (i, s) in enumerate(short) if len(s) <= 3 or d in FULL_DEPTH]
+        for (i, s), src, a in zip([short[k_] for k_ in pick], [short_src[k_] for k_ in pick],
+                                  harness("compile", [{"src": short_src[k_], "target": "sql." + d} for k_ in pick])):
             sql = a.get("ok", "")
             if sql.startswith(pre) and sql.endswith(suf):
                 prqlc_text[(d, i)] = sql[len(pre):-len(suf)]
